@@ -169,8 +169,80 @@ fn zero_sized_programs(rng: &mut Rng) -> String {
     }
 }
 
+/// Programs the harness did not generate from its own model: the corpus, the slot grid of C07 and
+/// every single-token deletion / duplication / adjacent swap of the corpus programs. Whatever the
+/// type checker accepts of them has to compile to a valid circuit with the shape of the *declared*
+/// types (computed by `c05_shapes`), to convert, to evaluate and to decode.
+fn foreign_programs() -> Vec<(&'static str, String)> {
+    let mut v: Vec<(&'static str, String)> = vec![];
+    let corpus = crate::corpus::load();
+    for (_, src) in corpus.iter() {
+        v.push(("corpus program", src.clone()));
+    }
+    for (_, text) in super::c07_grid::programs() {
+        v.push(("slot grid program", text));
+    }
+    for (_, src) in corpus.iter() {
+        if src.len() > 3000 {
+            continue;
+        }
+        let toks = super::c07::lex(src);
+        for (ti, (s, e)) in toks.iter().enumerate() {
+            v.push(("corpus program with a token deleted", format!("{}{}", &src[..*s], &src[*e..])));
+            v.push(("corpus program with a token duplicated", format!("{} {}{}", &src[..*e], &src[*s..*e], &src[*e..])));
+            if let Some((s2, e2)) = toks.get(ti + 1) {
+                v.push(("corpus program with two tokens swapped", format!("{}{}{}{}{}", &src[..*s], &src[*s2..*e2], &src[*e..*s2], &src[*s..*e], &src[*e2..])));
+            }
+        }
+    }
+    v
+}
+
 pub fn run(ctx: &Ctx) -> i32 {
     super::progs::replay_program_witnesses(ctx);
+    let foreign = foreign_programs();
+    let foreign_results = par(WORKERS, |w| {
+        let mut st = St::default();
+        let mut complete = true;
+        let mut runner = super::c07::ShapeRunner::new();
+        let mine: Vec<&(&'static str, String)> = foreign.iter().enumerate().filter(|(i, _)| i % WORKERS == w).map(|(_, p)| p).collect();
+        for chunk in mine.chunks(256) {
+            if ctx.past(0.4) {
+                complete = false;
+                break;
+            }
+            let texts: Vec<String> = chunk.iter().map(|(_, t)| t.clone()).collect();
+            let verdicts = runner.run("foreign program", &texts);
+            for ((class, src), v) in chunk.iter().zip(verdicts) {
+                use super::c07::ShapeVerdict as V;
+                match v {
+                    V::Rejected => st.counts.inc(&format!("{class}: rejected (not judged)")),
+                    V::Held(judged, with_shape) => {
+                        st.counts.inc(&format!("{class}: accepted, all public functions judged"));
+                        st.counts.add("foreign public functions judged", judged as u64);
+                        st.counts.add("foreign public functions with a shape from their declared types", with_shape as u64);
+                        st.fns_compiled += judged as u64;
+                        st.evals += judged as u64;
+                        st.distinct.insert(crate::util::fnv(src.as_bytes()));
+                    }
+                    V::KnownCause(c) => {
+                        st.counts.inc(&format!("{class}: accepted, known root cause {c} (not judged)"));
+                        ctx.known_finding(if c.starts_with("unspecified") { "KF-C05-1" } else { "KF-C05-3" });
+                    }
+                    V::Panicked(stage, msg) => {
+                        st.counts.inc(&format!("{class}: accepted, {stage} panicked"));
+                        ctx.violation(&format!("{class}: accepted by the type checker, {stage} panicked: {}", msg.chars().take(200).collect::<String>()), json!({"program": src, "stage": stage, "message": msg}));
+                    }
+                    V::Bad(what) => {
+                        st.counts.inc(&format!("{class}: accepted, product wrong"));
+                        ctx.violation(&format!("{class}: {}", what.chars().take(260).collect::<String>()), json!({"program": src, "problem": what}));
+                    }
+                    V::NotJudged(why) => st.counts.inc(&format!("{class}: not judged ({})", why.chars().take(60).collect::<String>())),
+                }
+            }
+        }
+        (st, complete)
+    });
     let results = par(WORKERS, |w| {
         let mut rng = Rng::derive(ctx.seed, 0x0500 + w as u64);
         let mut st = St::default();
@@ -257,6 +329,14 @@ pub fn run(ctx: &Ctx) -> i32 {
         st
     });
     let mut t = St::default();
+    let mut foreign_complete = true;
+    for (s, c) in foreign_results {
+        foreign_complete &= c;
+        t.counts.merge(&s.counts);
+        t.distinct.extend(s.distinct);
+        t.fns_compiled += s.fns_compiled;
+        t.evals += s.evals;
+    }
     for s in results {
         t.counts.merge(&s.counts);
         t.distinct.extend(s.distinct);
@@ -274,6 +354,7 @@ pub fn run(ctx: &Ctx) -> i32 {
     cov.insert("public_functions_compiled_and_checked".into(), json!(t.fns_compiled));
     cov.insert("evaluations_decoded".into(), json!(t.evals));
     cov.insert("exhaustive".into(), json!(false));
+    cov.insert("foreign_programs".into(), json!({"offered": foreign.len(), "all_offered_programs_checked": foreign_complete, "what": "corpus programs, the C07 slot grid, every single-token deletion / duplication / adjacent swap of the corpus programs <= 3000 bytes; accepted ones are judged with the shape of their declared types"}));
     cov.insert("samples".into(), json!(t.samples));
     ctx.finish(cov, vec!["no semantic oracle for suffix-free programs: garble may legitimately infer other types than the generator intended; only acceptance => good circuit is judged there".into()], 500)
 }
